@@ -1,5 +1,7 @@
 from __future__ import annotations
 
+import re
+
 from dataclasses import dataclass
 from pathlib import Path
 from typing import List
@@ -22,6 +24,9 @@ class SMMapSet(
         """Reads a .sm file"""
         ms = SMMapSet()
         lines = "\n".join(lines) if isinstance(lines, list) else lines
+        # A comment runs from // to the end of its line, wherever it stands.
+        # It must go before the text is cut at ; : and , which it may contain
+        lines = re.sub("//[^\n]*", "", lines)
         file_spl = [i.strip() for i in lines.split(";")]
         metadata = []
         maps = []
